@@ -221,6 +221,63 @@ Proof.
   destruct rest; [apply G; exact W | apply Main; [congruence | exact W]].
 Qed.
 
+(* a path the kernel resolves is resolved alike in any file system that has at least the same nodes *)
+Lemma walk_mono s2 s1 :
+  (forall p n, node_at s2 p = Some n -> node_at s1 p = Some n) ->
+  forall f m seen cur cs x, m = Strict \/ m = NoFollow ->
+  walk m s2 f seen cur cs = WOk x -> walk m s1 f seen cur cs = WOk x.
+Proof.
+  intros SUB. induction f as [|f IH]; intros m seen cur cs x HM W; [discriminate|].
+  destruct cs as [|c rest]; [exact W|].
+  rewrite walk_cons in *.
+  assert (LM : lenient m = false) by (destruct HM; subst; reflexivity).
+  rewrite LM in *. cbn [negb andb] in *.
+  destruct (is_dir s2 cur) eqn:D2; [|discriminate].
+  assert (D1 : is_dir s1 cur = true).
+  { unfold is_dir in *. destruct (node_at s2 cur) as [[| | |]|] eqn:N; try discriminate. rewrite (SUB _ _ N). reflexivity. }
+  rewrite D1. cbn [negb] in *.
+  destruct (is_dd c); [eapply IH; eauto|].
+  assert (Main :
+     match node_at s2 (c :: cur) with
+     | Some (NSym t) =>
+         if memb (c :: cur) seen then WErr
+         else match walk (sub_mode m rest) s2 f ((c :: cur) :: seen) (if is_abs t then [] else cur) (comps t) with
+              | WOk y => walk m s2 f seen y rest
+              | WLoop p r => WLoop p (r ++ rest)
+              | e => e
+              end
+     | Some _ => walk m s2 f seen (c :: cur) rest
+     | None => match m, rest with
+               | Lenient, _ | Create, [] => walk m s2 f seen (c :: cur) rest
+               | _, _ => WErr
+               end
+     end = WOk x ->
+     match node_at s1 (c :: cur) with
+     | Some (NSym t) =>
+         if memb (c :: cur) seen then WErr
+         else match walk (sub_mode m rest) s1 f ((c :: cur) :: seen) (if is_abs t then [] else cur) (comps t) with
+              | WOk y => walk m s1 f seen y rest
+              | WLoop p r => WLoop p (r ++ rest)
+              | e => e
+              end
+     | Some _ => walk m s1 f seen (c :: cur) rest
+     | None => match m, rest with
+               | Lenient, _ | Create, [] => walk m s1 f seen (c :: cur) rest
+               | _, _ => WErr
+               end
+     end = WOk x).
+  { intros W'. destruct (node_at s2 (c :: cur)) as [n|] eqn:N.
+    - rewrite (SUB _ _ N). destruct n as [| i | t |]; try (eapply IH; eauto; fail).
+      destruct (memb (c :: cur) seen); [discriminate|].
+      destruct (walk (sub_mode m rest) s2 f ((c :: cur) :: seen) (if is_abs t then [] else cur) (comps t)) eqn:W1;
+        try discriminate.
+      erewrite IH; [| | exact W1]; [eapply IH; eauto|].
+      destruct HM; subst; destruct rest; cbn; auto.
+    - destruct HM; subst; destruct rest; discriminate. }
+  destruct HM; subst; [apply Main; exact W|].
+  destruct rest; [eapply IH; eauto | apply Main; exact W].
+Qed.
+
 (* ================================================================ the file system under updates *)
 Lemma node_at_set_same s p n : p <> [] -> node_at (set_node s p n) p = Some n.
 Proof. destruct p; [congruence|]. intros _. cbn. apply lookup_insert_eq. Qed.
@@ -425,9 +482,9 @@ Section Member.
     rewrite firstn_removelast in P by assumption. apply P. rewrite removelast_length. lia.
   Qed.
 
-  Lemma makedirs_steps : forall rq s s1 st,
+  Lemma makedirs_steps eok : forall rq s s1 st,
     existsb is_dd (rev rq) = false -> pchain s (rev rq) ->
-    makedirs s R rq = (s1, st) -> steps R s s1 /\ dirs_added s s1.
+    makedirs eok s R rq = (s1, st) -> steps R s s1 /\ dirs_added s s1.
   Proof.
     induction rq as [|c rhead IH]; intros s s1 st DD P M.
     - cbn in M. injection M as <- <-. split; [apply steps_refl | apply dirs_added_refl].
@@ -436,10 +493,10 @@ Section Member.
       { cbn [rev] in DD. rewrite existsb_app in DD. apply orb_false_iff in DD. tauto. }
       assert (P' : pchain s (rev rhead)) by (cbn [rev] in P; eapply pchain_app; eauto).
       set (pre := if k_exists s R (rev rhead) then (s, MDone)
-                  else match makedirs s R rhead with (s1, MFail) => (s1, MFail) | (s1, _) => (s1, MDone) end) in M.
+                  else match makedirs eok s R rhead with (s1, MFail) => (s1, MFail) | (s1, _) => (s1, MDone) end) in M.
       assert (PRE : steps R s (fst pre) /\ dirs_added s (fst pre)).
       { unfold pre. destruct (k_exists s R (rev rhead)); [split; [apply steps_refl | apply dirs_added_refl]|].
-        destruct (makedirs s R rhead) as [sa sta] eqn:MA. destruct (IH s sa sta DD' P' MA).
+        destruct (makedirs eok s R rhead) as [sa sta] eqn:MA. destruct (IH s sa sta DD' P' MA).
         destruct sta; cbn; auto. }
       destruct pre as [sa sta]. cbn [fst] in PRE. destruct PRE as [SA DA].
       destruct sta; try (injection M as <- <-; auto; fail).
@@ -602,6 +659,73 @@ Section Extract.
     intros t' E. clash N E.
   Qed.
 
+  Lemma link_prim_sf s t s' :
+    J s ->
+    (forall x i, walk NoFollow s FUEL [] R (comps t) = WOk x -> node_at s x = Some (NFile i) -> under R x) ->
+    k_link s R (comps t) R cs = KOk s' -> prim R s s'.
+  Proof.
+    intros HJ SF K. unfold k_link in K.
+    destruct (walk NoFollow s FUEL [] R (comps t)) as [x| | |] eqn:W; try discriminate.
+    destruct (node_at s x) as [n|] eqn:N; [|discriminate].
+    assert (K' : k_create s R cs n = KOk s') by (destruct n; auto; discriminate).
+    eapply create_prim1; [exact HJ | | exact K'].
+    intros i ->. exists x. split; [eapply SF; eauto | assumption].
+  Qed.
+
+  Lemma source_fact s t :
+    leneq s0 s -> (forall x, walk Lenient s0 FUEL [] R (comps t) = WOk x -> under R x) ->
+    forall x i, walk NoFollow s FUEL [] R (comps t) = WOk x -> node_at s x = Some (NFile i) -> under R x.
+  Proof.
+    intros LE LF x i W N. apply LF. rewrite <- LE. eapply walk_agree; [exact W|]. right. split; [reflexivity|].
+    intros t' E. clash N E.
+  Qed.
+
+  Lemma source_fact_sub s s2 t :
+    (forall p n, node_at s2 p = Some n -> node_at s p = Some n) ->
+    (forall x i, walk NoFollow s FUEL [] R (comps t) = WOk x -> node_at s x = Some (NFile i) -> under R x) ->
+    forall x i, walk NoFollow s2 FUEL [] R (comps t) = WOk x -> node_at s2 x = Some (NFile i) -> under R x.
+  Proof.
+    intros SUB SF x i W N. eapply SF; [|apply SUB; exact N]. eapply walk_mono; eauto.
+  Qed.
+
+  (* kapture's own creation of a link member *)
+  Lemma own_link_steps s m :
+    J s -> leneq s0 s ->
+    (forall n t, m = MHard n t -> forall x, walk Lenient s0 FUEL [] R (comps t) = WOk x -> under R x) ->
+    steps R s (eres_state (own_link R s cs m)).
+  Proof.
+    intros HJ LE LF. unfold own_link.
+    destruct (makedirs true s R (rev (removelast cs))) as [s1 st] eqn:MA.
+    assert (PRE : steps R s s1 /\ dirs_added s s1).
+    { eapply makedirs_steps; [| | exact MA]; rewrite rev_involutive; [apply existsb_removelast; exact nodd | apply HJ]. }
+    destruct PRE as [S1 D1].
+    assert (J1 : J s1) by (eapply J_dirs_added; eauto).
+    assert (LE1 : leneq s0 s1) by (eapply leneq_dirs_added; eauto).
+    destruct st; try exact S1.
+    set (cleared := if k_lexists s1 R cs then match k_unlink s1 R cs with KOk s2 => Some s2 | _ => None end else Some s1).
+    assert (CL : match cleared with
+                 | Some s2 => steps R s1 s2 /\ J s2 /\ (forall p n, node_at s2 p = Some n -> node_at s1 p = Some n)
+                 | None => True end).
+    { unfold cleared. destruct (k_lexists s1 R cs); [|split; [apply steps_refl | split; [exact J1 | auto]]].
+      destruct (k_unlink s1 R cs) as [s2| |] eqn:KU; auto.
+      destruct (unlink_prim s1 s2 J1 KU) as [PU J2]. split; [apply steps_one; exact PU | split; [exact J2|]].
+      unfold k_unlink in KU. destruct (walk NoFollow s1 FUEL [] R cs) as [x| | |]; try discriminate.
+      assert (S2 : s2 = del_node s1 x) by (destruct (node_at s1 x) as [[| | |]|]; congruence).
+      subst s2. intros p n Hp. destruct (eqb_spec p x) as [->|NE].
+      - destruct x; [cbn in Hp; exact Hp|]. rewrite node_at_del_same in Hp by discriminate. discriminate.
+      - rewrite node_at_del_other in Hp by assumption. exact Hp. }
+    destruct cleared as [s2|]; [|exact S1]. destruct CL as [S2 [J2 SUB]].
+    destruct m as [n d | n | n t | n t | n]; cbn [eres_state]; try (eapply steps_trans; eauto; fail).
+    - unfold k_symlink. destruct (k_create s2 R cs (NSym t)) as [s3| |] eqn:K; cbn [eres_state];
+        try (eapply steps_trans; eauto; fail).
+      eapply steps_trans; [exact S1|]. eapply steps_trans; [exact S2|]. apply steps_one.
+      eapply create_prim1; [exact J2 | | exact K]. intros ? E; discriminate E.
+    - destruct (k_link s2 R (comps t) R cs) as [s3| |] eqn:K; cbn [eres_state]; try (eapply steps_trans; eauto; fail).
+      eapply steps_trans; [exact S1|]. eapply steps_trans; [exact S2|]. apply steps_one.
+      eapply link_prim_sf; [exact J2 | | exact K].
+      eapply source_fact_sub; [exact SUB|]. eapply source_fact; [exact LE1 | eapply LF; reflexivity].
+  Qed.
+
   Lemma extract_at_steps : forall fuel s m i primary,
     J s -> (primary = true -> Hprim s m) ->
     let r := extract_at fuel all R s R cs m i primary in
@@ -609,10 +733,10 @@ Section Extract.
   Proof.
     induction fuel as [|fuel IH]; intros s m i primary HJ HP; [cbn; split; [apply steps_refl | tauto]|].
     cbn [extract_at].
-    set (pre := if k_exists s R (removelast cs) then (s, MDone) else makedirs s R (rev (removelast cs))).
+    set (pre := if k_exists s R (removelast cs) then (s, MDone) else makedirs false s R (rev (removelast cs))).
     assert (PRE : steps R s (fst pre) /\ dirs_added s (fst pre)).
     { unfold pre. destruct (k_exists s R (removelast cs)); [split; [apply steps_refl | apply dirs_added_refl]|].
-      destruct (makedirs s R (rev (removelast cs))) as [sa sta] eqn:MA. cbn [fst].
+      destruct (makedirs false s R (rev (removelast cs))) as [sa sta] eqn:MA. cbn [fst].
       eapply makedirs_steps; [| | exact MA]; rewrite rev_involutive; [apply existsb_removelast; exact nodd | apply HJ]. }
     destruct pre as [s1 st]. cbn [fst] in PRE. destruct PRE as [S1 D1].
     assert (J1 : J s1) by (eapply J_dirs_added; eauto).
@@ -715,15 +839,24 @@ Proof.
   destruct (existsb is_dd (comps (m_name m))) eqn:DD; [discriminate|].
   destruct (no_sym_prefix s R (comps (m_name m))) eqn:NS; [|discriminate]. cbn [negb] in C.
   destruct (data_filter_facts s R m C) as [OF LF].
-  pose proof (extract_at_steps all R s (comps (m_name m)) DD OF EFUEL s
-                (with_name m (lstrip_slash (m_name m))) i true) as EX.
   assert (HJ : J R s (comps (m_name m)) s).
   { split; [intros k Hk; eapply no_sym_prefix_chain; eauto | intros t _ f seen cur cs'; reflexivity]. }
-  assert (HP : true = true -> Hprim R s s (with_name m (lstrip_slash (m_name m)))).
-  { intros _. split; [intros f seen cur cs'; reflexivity|]. intros n t E.
-    destruct m; cbn in E; try discriminate. injection E as <- <-. eapply LF; reflexivity. }
-  destruct (EX HJ HP) as [S _].
-  destruct (extract_at EFUEL all R s R (comps (m_name m)) (with_name m (lstrip_slash (m_name m))) i true); exact S.
+  assert (LE : leneq s s) by (intros f seen cur cs'; reflexivity).
+  assert (G : steps R s (eres_state (if is_link m then own_link R s (comps (m_name m)) (with_name m (lstrip_slash (m_name m)))
+                                     else extract_at EFUEL all R s R (comps (m_name m))
+                                            (with_name m (lstrip_slash (m_name m))) i true))).
+  { destruct (is_link m).
+    - eapply own_link_steps; [exact DD | exact OF | exact HJ | exact LE |].
+      intros n t E. destruct m; cbn in E; try discriminate. injection E as <- <-. eapply LF; reflexivity.
+    - pose proof (extract_at_steps all R s (comps (m_name m)) DD OF EFUEL s
+                    (with_name m (lstrip_slash (m_name m))) i true) as EX.
+      assert (HP : true = true -> Hprim R s s (with_name m (lstrip_slash (m_name m)))).
+      { intros _. split; [exact LE|]. intros n t E.
+        destruct m; cbn in E; try discriminate. injection E as <- <-. eapply LF; reflexivity. }
+      destruct (EX HJ HP) as [S _]. exact S. }
+  destruct (if is_link m then own_link R s (comps (m_name m)) (with_name m (lstrip_slash (m_name m)))
+            else extract_at EFUEL all R s R (comps (m_name m)) (with_name m (lstrip_slash (m_name m))) i true);
+    exact G.
 Qed.
 
 Lemma untar_from_repaired_steps all R : forall ms s i,
